@@ -39,6 +39,9 @@ def cases(seed, tier):
             arrs = [p for p in T.all_paths(t) if T.spec_at(t, p)['cls'] == 'Array']
             if arrs:
                 T.spec_at(t, rng.choice(arrs))['kids'].append({'cls': 'Node', 'name': rng.choice(['data', 'dim0']), 'tok': 0, 'rank': 0, 'mds': [], 'kids': []})
+        # a second, different tree whose root is called like the first one's: lists naming nodes of both are refused
+        t3 = T.rand_tree(rng, 'r', rng.choice([1, 2]), names=['a', 'z'], md_p=0.2)
+        tops.append(t3)
         steps = []
         fid = [0]
         def fresh():
@@ -77,6 +80,10 @@ def cases(seed, tier):
                     us = [it for it in items if it['kind'] == 'top' and it['top'] in (2, 3)]
                     if us:
                         items.insert(rng.randrange(len(items) + 1), dict(rng.choice(us)))
+                if rng.random() < 0.15 and t['kids'] and t3['kids']:
+                    # nodes of two different roots of one name: refused before anything is touched -- with unrooted items in the list too
+                    items.insert(rng.randrange(len(items) + 1), {'kind': 'top', 'top': 0, 'tp': [rng.choice(t['kids'])['name']]})
+                    items.insert(rng.randrange(len(items) + 1), {'kind': 'top', 'top': 4, 'tp': [rng.choice(t3['kids'])['name']]})
                 if items:
                     inp = {'kind': rng.choice(['list', 'tuple']), 'items': items}
                     steps.append({'op': 'save', 'file': fresh(), 'input': inp, 'mode': mode, 'tree': True, 'twin': True})
